@@ -750,6 +750,34 @@ func main() {
 			items = append(items, fmt.Sprintf("mk_ch_case Gen_%s %s %s %s", ct.Short, coqClaim(ct, m), lib.Bool(valid), lib.Bytes(pre)))
 		}
 	}
+	// one claim with more than 100 list elements per list-bearing type (rendering of long lists)
+	for _, ct := range tab.Claims {
+		hasList := false
+		for _, f := range ct.Fields {
+			hasList = hasList || f.Kind == "members" || f.Kind == "strlist"
+		}
+		if !hasList || ct.Err != "" {
+			continue
+		}
+		g := &gen{r: r, chain: "eth", noNil: true}
+		m := g.claim(ct)
+		for _, f := range ct.Fields {
+			if f.Kind == "members" || f.Kind == "strlist" || f.Kind == "intlist" {
+				fieldOf(m, f.Name).Set(reflect.ValueOf(g.value(f, 101)))
+			}
+		}
+		pre := renderTable(ct, m)
+		sum := sha256.Sum256(pre)
+		valid := m.ValidateBasic() == nil
+		rep.Case(ct.Go+"|long|"+string(pre), valid)
+		rep.Count("phase1:long-list")
+		if !bytes.Equal(sum[:], m.ClaimHash()) {
+			rep.Fail(lib.Failure{Kind: "tie", Sig: "C03:render:" + ct.Go,
+				What:   "sha256 of the pre-image rendered from the extracted token table differs from the real ClaimHash() of " + ct.Go + " (101-element lists)",
+				Replay: map[string]interface{}{"claim": describe(ct, m), "rendered": string(pre)}})
+		}
+		items = append(items, fmt.Sprintf("mk_ch_case Gen_%s %s %s %s", ct.Short, coqClaim(ct, m), lib.Bool(valid), lib.Bytes(pre)))
+	}
 	lib.WriteCases("Cases_C03.v", []string{"model.M_ClaimHash", "model.M_ClaimHashCorr", "gen.Gen_ClaimHash"}, "ch_case", items, "ch_mismatch")
 
 	// ---------------- phase 2
@@ -946,6 +974,68 @@ func main() {
 			}
 		}
 	}
+	// scale: lists of 99, 100, 101, 120, 250 elements (members repeated where validation allows it) with a single
+	// element changed in every region: first, around the 100th, last.  A rendering that stops after N elements, or a
+	// tally keyed by a truncated list, shows up only here.
+	for _, ct := range tab.Claims {
+		var lists []extract.Field
+		for _, f := range ct.Fields {
+			if (f.Kind == "strlist" || f.Kind == "intlist" || f.Kind == "members") && !extract.IsIrrelevant(f.Name) {
+				lists = append(lists, f)
+			}
+		}
+		if len(lists) == 0 {
+			continue
+		}
+		for _, n := range []int{99, 100, 101, 120, 250} {
+			g := &gen{r: r, chain: "eth", noNil: true}
+			base := g.claim(ct)
+			pool := []string{g.addr(), g.addr(), g.addr()}
+			for _, f := range lists {
+				v := reflect.ValueOf(g.value(f, n))
+				if f.Kind == "members" && n%2 == 1 { // repeated members
+					for k := 0; k < v.Len(); k++ {
+						v.Index(k).FieldByName("ExternalAddress").SetString(pool[k%len(pool)])
+					}
+				}
+				if f.Kind == "intlist" { // amounts must pass ValidateBasic: non-negative
+					for k := 0; k < v.Len(); k++ {
+						v.Index(k).Set(reflect.ValueOf(v.Index(k).Interface().(sdkmath.Int).Abs()))
+					}
+				}
+				fieldOf(base, f.Name).Set(v)
+			}
+			for _, f := range lists {
+				for _, k := range []int{0, 98, 99, 100, n - 1} {
+					if k >= n {
+						continue
+					}
+					for try := 0; try < 2; try++ { // members: once the address, once the power
+						v := clone(ct, base)
+						el := fieldOf(v, f.Name).Index(k)
+						switch f.Kind {
+						case "members":
+							if try == 0 {
+								el.FieldByName("ExternalAddress").SetString(g.addr())
+							} else {
+								el.FieldByName("Power").SetUint(el.FieldByName("Power").Uint() ^ 4_000_000_000 | 1)
+							}
+						case "strlist":
+							el.SetString(g.addr())
+						case "intlist":
+							el.Set(reflect.ValueOf(el.Interface().(sdkmath.Int).AddRaw(1)))
+						}
+						if canon(ct, v, relevantOnly) != canon(ct, base, relevantOnly) {
+							pairs = append(pairs, pairT{ct: ct, a: base, b: v, kind: fmt.Sprintf("long:%s[%d/%d]", f.Name, k, n)})
+						}
+						if f.Kind != "members" {
+							break
+						}
+					}
+				}
+			}
+		}
+	}
 	var pitems []string
 	type collT struct {
 		p   pairT
@@ -967,7 +1057,7 @@ func main() {
 				rep.Notes = append(rep.Notes, p.kind+": a claim of this corpus pair no longer passes ValidateBasic (entry is stale)")
 			}
 		}
-		if p.ct.Err == "" {
+		if p.ct.Err == "" && (lib.Tier() == "thorough" || !strings.HasPrefix(p.kind, "long:") || strings.HasSuffix(p.kind, "[100/101]")) {
 			pitems = append(pitems, fmt.Sprintf("mk_pair_case Gen_%s %s %s %s %s", p.ct.Short, coqClaim(p.ct, p.a), coqClaim(p.ct, p.b), lib.Bool(same), lib.Bool(sameRel)))
 		}
 		if !(p.valid && same && !sameRel) {
@@ -1041,6 +1131,7 @@ func main() {
 		replayThroughQuorum(rep, tab, c.p, c.sig, seed)
 	}
 	memoShowcase(rep, seed)
+	oracleSetScaleScenario(rep, seed)
 	rep.Write()
 	if mode == "replay" {
 		for _, f := range rep.Failures {
